@@ -413,7 +413,7 @@ def discharge(mir, cx, fn, ex, cls, kind, bb, obj, desc, args, tests):
             return "D-stateidx", cx.stateidx_ok[0], "A-idx: " + cx.stateidx_ok[1]
         if re.search(r"\.index_map$", a0):
             return "D-stateidx", cx.stateidx_ok[0], "index updater is a permutation of the state positions (A-idx): " + cx.stateidx_ok[1]
-        if re.search(r"\.rules$", a0) and re.match(r"^param\d+$", a1):
+        if re.search(r"\.rules$", a0) and (re.match(r"^param\d+$", a1) or re.match(r"^\([\w.]+ as Original\)\.0$", a1)):
             return "D-ruleidx", cx.ruleidx_ok[0], "rule indices are produced only by enumerate over the same rule list: " + cx.ruleidx_ok[1]
         if re.search(r"\.(actions|gotos)$", a0) and re.match(r"^Table::(action|goto)_index\(param1, ", a1):
             return "D-tableidx", True, "index computed by the guarded index function (state < state_count checked there, column < width); table length = states x width by construction (A-table)"
@@ -587,6 +587,11 @@ def check_who_constructs(mir, res, rule, tyname):
                         parent = mir.fns.get(fn.parent)
                         psrc = canon(Exprs(parent).local(0)) if parent else ""
                         good = bool(re.search(r"Range::Range\{const\(0_usize\), Table::state_count\(", psrc)) or bool(re.search(r"Iterator::enumerate\(.*\.states", psrc))
+                        from ..mir import closure_loop_context, lift_closure_canon
+                        cctx = closure_loop_context(mir, fn)
+                        if not good and cctx is not None:
+                            # the body of `(0..states.len()).try_for_each(|i| ..)`: the same range counter
+                            good = any(re.match(p, lift_closure_canon(e, cctx)) for p in ok_forms)
                     res.inst(rule, "who-constructs|%s|%s" % (tyname, fn.path), fn.where, True, e[:120])
                     if not good:
                         bad.append((fn, e))
@@ -708,6 +713,16 @@ def check_method_map(mir, res, rule):
                     good = bool(re.match(r"^Iterator::collect\(Iterator::map\(Iterator::enumerate\(slice::iter\(param2\.terminal_enum\.variants\)\), .*\)\)$", e))
                     ctext = closure_text(mir, e)
                     good = good and "param2.1.dollarless_name" in ctext
+                    mh = re.match(r"^([\w:]+)\(param2\.terminal_enum\)$", e)
+                    if not good and mh:
+                        # a helper that fills the map in a `for` loop over all variants
+                        from ..mir import filled_in_complete_loop
+                        hs = [g for g in mir.fns.values() if g.kind in ("Fn", "AssocFn") and not g.derived and short_path(g.path) == mh.group(1)]
+                        fl = filled_in_complete_loop(hs[0], ("HashMap::new", "BTreeMap::new"), ("HashMap::insert", "BTreeMap::insert")) if len(hs) == 1 else None
+                        if fl is not None:
+                            src, iargs = fl
+                            good = bool(re.match(r"^(IntoIterator@\w+::into_iter\()?Iterator::enumerate\(slice::iter\(param1\.variants\)\)\)?$", src)) and bool(re.match(r"^\(Iterator@Enumerate::next\(.*\) as Some\)\.0\.1\.dollarless_name$", iargs[0]))
+                            e = "%s: for .. in %s { insert(%s, ..) }" % (e, src, iargs[0][-40:])
                     res.inst(rule, "D-tref|method-map", fn.where, True, e[:140])
                     if not good:
                         res.violate(rule, "D-tref|method-map", fn.where, "the terminal->method map must be collected from *all* terminal variants keyed by their own name; found `%s`" % e[:160])
